@@ -85,6 +85,7 @@ pub fn evaluate(prop: &str, case: &Case, fault: &Fault) -> Vec<Failure> {
                 let mut d = Driver::new(case);
                 d.lenient = true;
                 d.lenient_io = prop == "C17";
+                d.keep_obs = prop == "C12";
                 d.run_all(&case.ops);
                 d
             } else {
